@@ -313,3 +313,56 @@ def rule_ctxshape(ctx, prop: str) -> RuleResult:
     need(pat.has("_M_b = " + BDS, f.node) and pat.has("E.Loop(_M_s.iter, [E.Guard(_M_b, _M_body)])", f.node), f, "eff-loop:bounds", "effects of a loop body are quantified over lo <= i < hi")
     res.floor = 10
     return res
+
+
+def rule_envshadow(ctx, prop: str) -> RuleResult:
+    """Environments are ordered lists of bindings; a later binding of a name shadows an
+    earlier one (the same callee formal bound at two call sites, a window re-bound in a
+    nested scope).  Every fold of `.bindings` into a dictionary must therefore let the
+    later binding win: plain item stores, no `setdefault`, no store guarded by
+    `name not in <dict>`; folds that build nested lets must run over `reversed(...)`
+    so that the first binding ends up outermost."""
+    ix = ctx.ix
+    res = RuleResult("ENVSHADOW")
+    m = ix.module(NE)
+    n_folds = 0
+    for f in m.funcs.values():
+        if not isinstance(f.node, ast.FunctionDef):
+            continue
+        for loop in f.body_nodes():
+            if not (isinstance(loop, ast.For) and ".bindings" in ast.unparse(loop.iter)):
+                continue
+            n_folds += 1
+            res.instances += 1
+            res.nontrivial += 1
+            res.analysed.append(f"{NE}:{f.qualname}")
+            rev = ast.unparse(loop.iter).startswith("reversed(")
+            bad = None
+            builds_let = any(isinstance(x, ast.Call) and last_name(x) in ("ALet", "ALetTuple", "ALetStride") for s in loop.body for x in ast.walk(s))
+            for s in loop.body:
+                for x in ast.walk(s):
+                    if isinstance(x, ast.Call) and isinstance(x.func, ast.Attribute) and x.func.attr == "setdefault":
+                        bad = (x, "setdefault keeps the FIRST binding of a name")
+                    if isinstance(x, ast.If):
+                        t = x.test
+                        for c in ast.walk(t):
+                            if isinstance(c, ast.Compare) and len(c.ops) == 1 and isinstance(c.ops[0], ast.NotIn):
+                                d = ast.unparse(c.comparators[0])
+                                if any(isinstance(y, ast.Assign) and isinstance(y.targets[0], ast.Subscript) and ast.unparse(y.targets[0].value) == d for b in x.body for y in ast.walk(b)):
+                                    bad = (x, f"the store into `{d}` is skipped when the name is already bound")
+            if builds_let and not rev:
+                bad = (loop, "nested lets are built in definition order: the first binding ends up innermost and shadows the later ones")
+            ok = bad is None
+            res.ob(ok)
+            res.sample(f"{f.qualname}: fold over `{ast.unparse(loop.iter)}` lets the later binding win: {ok}")
+            if not ok:
+                node, how = bad
+                res.add(
+                    Finding("ENVSHADOW", NE, node.lineno, f.qualname, ast.unparse(loop.iter),
+                            f"{f.qualname}: {how} — two calls of one sub-procedure in a block bind the same formal twice; the second call's accesses are attributed to the "
+                            f"first call's window, so a race (or an out-of-bounds / non-commuting access) of the second call is judged on the wrong locations")
+                )
+    if n_folds < 3:
+        raise AnalysisError(f"ENVSHADOW: expected >= 3 folds over `.bindings` in new_eff.py, found {n_folds}")
+    res.floor = 3
+    return res
